@@ -647,7 +647,20 @@ func (x *Exec) builtin(st *State, b *ssa.Builtin, com *ssa.CallCommon, args []*V
 		return nil, fmt.Errorf("UNSUPPORTED builtin delete")
 	case "print", "println":
 		return nil, nil
-	case "String", "SliceData", "StringData", "Slice":
+	case "SliceData":
+		// unsafe.SliceData(s): the address of s's first element (an interior pointer of the array)
+		a := args[0]
+		sl := com.Args[0].Type().Underlying().(*types.Slice)
+		return &Val{T: types.NewPointer(sl.Elem()), C: []*Term{a.C[0]}, A: &Addr{prefix: elemPrefix(sl.Elem()), keys: []*Term{a.C[0], a.C[1]}}}, nil
+	case "String":
+		// unsafe.String(p, n): a string viewing the n bytes at p (same array, same offset)
+		p, n := args[0], args[1]
+		if p.A == nil || len(p.A.keys) != 2 {
+			return nil, fmt.Errorf("UNSUPPORTED unsafe.String of a pointer that is not an element address")
+		}
+		x.trusted["unsafe.String is modelled as a view of the bytes it points to"] = true
+		return &Val{T: types.Typ[types.String], C: []*Term{p.A.keys[0], p.A.keys[1], n.C[0]}}, nil
+	case "StringData", "Slice":
 		return nil, fmt.Errorf("UNSUPPORTED unsafe builtin %s", b.Name())
 	}
 	return nil, fmt.Errorf("UNSUPPORTED builtin %s", b.Name())
